@@ -279,6 +279,42 @@ func streamUnit(total, chunk int) harness.Unit {
 	}}
 }
 
+// bigWriteUnit: ONE Write (and the one-shot function) with 2^k-1, 2^k and 2^k+1 bytes, on an empty
+// object and after 1 or 63 pending bytes. Chunked streams never hand the implementation an argument
+// larger than the chunk; this does.
+func bigWriteUnit(k int) harness.Unit {
+	return harness.Unit{Name: fmt.Sprintf("big-write/2^%d", k), Run: func(c *harness.Ctx) {
+		msg := pu.Msg(k, (1<<k)+1+63)
+		for _, n := range []int{(1 << k) - 1, 1 << k, (1 << k) + 1} {
+			for _, pre := range []int{0, 1, 63} {
+				want := refsm3.Sum(msg[:pre+n])
+				h := sm3.New()
+				h.Write(msg[:pre])
+				if w, err := h.Write(msg[pre : pre+n]); w != n || err != nil {
+					c.Violate(fmt.Sprintf("big-write-count:2^%d", k), fmt.Sprintf("Write of %d bytes returns (%d, %v)", n, w, err), nil, nil)
+				}
+				c.Add("transitions", 2)
+				c.Add("executions", 1)
+				if got := h.Sum(nil); !bytes.Equal(got, want[:]) {
+					c.Violate(fmt.Sprintf("big-write:2^%d%+d:after%d", k, n-(1<<k), pre), fmt.Sprintf("digest after %d pending bytes and one Write of %d bytes is %x, GM/T 0004 gives %x", pre, n, got, want), nil, nil)
+				}
+				if pre == 0 {
+					if got := sm3.Sm3Sum(msg[:n]); !bytes.Equal(got, want[:]) {
+						c.Violate(fmt.Sprintf("big-one-shot:2^%d%+d", k, n-(1<<k)), fmt.Sprintf("one-shot digest of %d bytes is %x, GM/T 0004 gives %x", n, got, want), nil, nil)
+					}
+					a, b := hmac.New(sm3.New, msg[:40]), hmac.New(refsm3.New, msg[:40])
+					a.Write(msg[:n])
+					b.Write(msg[:n])
+					if !bytes.Equal(a.Sum(nil), b.Sum(nil)) {
+						c.Violate(fmt.Sprintf("big-hmac:2^%d%+d", k, n-(1<<k)), fmt.Sprintf("HMAC-SM3 over one Write of %d bytes differs from its definition", n), nil, nil)
+					}
+				}
+			}
+		}
+		c.Sample(fmt.Sprintf("single Writes of 2^%d-1, 2^%d, 2^%d+1 bytes after 0/1/63 pending bytes; one-shot; HMAC", k, k, k))
+	}}
+}
+
 func consumersUnit() harness.Unit {
 	return harness.Unit{Name: "consumers/hmac+pbkdf2", Run: func(c *harness.Ctx) {
 		if sm3.New().Size() != 32 || sm3.New().BlockSize() != 64 {
@@ -340,14 +376,14 @@ func consumersUnit() harness.Unit {
 var Prop = &harness.Prop{
 	ID:    "C04",
 	Level: "model_checking",
-	Rule: "every sequence over {Write(c) c in {0,1,3,55,56,63,64,65,119,128}, Sum(nil), Sum(3-byte prefix), Sum(3-byte prefix with 64 spare), Reset} up to the depth bound runs on a real sm3.New() object; the model is a byte slice; after every Sum the result must equal prefix||refsm3(model) and the prefix/capacity must be intact; plus every split of every length, every one-shot length, long streams, HMAC and PBKDF2 against their definitions over refsm3. " +
+	Rule: "every sequence over {Write(c) c in {0,1,3,55,56,63,64,65,119,128}, Sum(nil), Sum(3-byte prefix), Sum(3-byte prefix with 64 spare), Reset} up to the depth bound runs on a real sm3.New() object; the model is a byte slice; after every Sum the result must equal prefix||refsm3(model) and the prefix/capacity must be intact; plus every split of every length, every one-shot length, long streams, single very large Writes (an argument of 2^k-1, 2^k, 2^k+1 bytes), HMAC and PBKDF2 against their definitions over refsm3. " +
 		"states = distinct message lengths compared one-shot/split; outcomes = distinct verdict classes of the history exploration.",
 	Assumptions: []string{"refsm3 is a correct transcription of GM/T 0004 (self-tested on the standard's vectors by setup.sh)", "message bytes are a fixed function of position; digest collisions between distinct models are ignored"},
 	Bounds: func(tier string) string {
 		if tier == "thorough" {
-			return "histories: all sequences of length 7 over 14 operations and of length 9 over the reduced 8-operation alphabet {Write 1/63/64/65, 3 Sums, Reset} (+ implicit final Sum); 2-splits: all L<=600; 3-splits: all L<=140; one-shot: all L<=8192; streams 3 MiB by 4096 and by 4099"
+			return "histories: all sequences of length 7 over 14 operations and of length 9 over the reduced 8-operation alphabet {Write 1/63/64/65, 3 Sums, Reset} (+ implicit final Sum); 2-splits: all L<=600; 3-splits: all L<=140; one-shot: all L<=8192; streams 3 MiB by 4096 and by 4099; single Writes of 2^k-1/2^k/2^k+1 bytes, k=14..26 (64 MiB), after 0/1/63 pending bytes"
 		}
-		return "histories: all sequences of length 5 over 14 operations and of length 7 over the reduced 8-operation alphabet {Write 1/63/64/65, 3 Sums, Reset} (+ implicit final Sum); 2-splits: all L<=300; 3-splits: all L<=70; one-shot: all L<=2100 and 8000..8192; stream 3 MiB by 4096"
+		return "histories: all sequences of length 5 over 14 operations and of length 7 over the reduced 8-operation alphabet {Write 1/63/64/65, 3 Sums, Reset} (+ implicit final Sum); 2-splits: all L<=300; 3-splits: all L<=70; one-shot: all L<=2100 and 8000..8192; stream 3 MiB by 4096; single Writes of 2^k-1/2^k/2^k+1 bytes, k=14..23 (8 MiB), after 0/1/63 pending bytes"
 	},
 	Units: func(tier string) []harness.Unit {
 		var u []harness.Unit
@@ -372,6 +408,9 @@ var Prop = &harness.Prop{
 				u = append(u, oneShotUnit(lo, min(lo+511, 8192)))
 			}
 			u = append(u, streamUnit(3<<20, 4096), streamUnit(3<<20, 4099))
+			for k := 14; k <= 26; k++ {
+				u = append(u, bigWriteUnit(k))
+			}
 		} else {
 			for lo := 0; lo <= 300; lo += 50 {
 				u = append(u, splitUnit(lo, min(lo+49, 300)))
@@ -384,6 +423,9 @@ var Prop = &harness.Prop{
 			}
 			u = append(u, oneShotUnit(8000, 8192))
 			u = append(u, streamUnit(3<<20, 4096))
+			for k := 14; k <= 23; k++ {
+				u = append(u, bigWriteUnit(k))
+			}
 		}
 		u = append(u, consumersUnit())
 		return u
